@@ -11,6 +11,12 @@ from vlib.ref import refreader as R
 ID = 'C08'
 LEVEL = 'model_checking'
 FUNCTIONS = ['ddsmt.nodeio:parse_smtlib', 'ddsmt.nodes:Node.__init__']
+LEXDOC = ('lexeme-level partitions: sequences of lexemes of every kind '
+          '(symbol with hyphen, string literal incl. doubled quote, quoted '
+          'symbol containing ; " ( and a line break, parentheses, decimal, '
+          'keyword, #b, #x) with a symbolic character inside, separated by '
+          'every kind of white space (none, space, tab, LF, CRLF, comment '
+          'with symbolic content)')
 ASSUMPTIONS = [
     'hash shim mode S: ddsmt.nodes.hash returns a constant for leaves and a '
     'structural polynomial for tuples (parse_smtlib uses hashes only to fill '
@@ -57,6 +63,20 @@ def check_text(text):
     return None
 
 
+def check_and_describe(text):
+    from ddsmt import nodeio
+    ref = R.read(text)
+    if isinstance(ref, str):
+        return None
+    try:
+        got = [to_list(n) for n in nodeio.parse_smtlib(text)]
+    except Exception as e:
+        return f'parse_smtlib({text!r}) raised {type(e).__name__}: {e}'
+    if got != ref:
+        return f'parse_smtlib({text!r}) = {got!r}, reference reader: {ref!r}'
+    return None
+
+
 def make(L, pins):
     def h(text: str):
         assume(len(text) == L)
@@ -69,8 +89,153 @@ def make(L, pins):
     return h
 
 
+# ------------------------------------------------------ lexeme level
+LEX = ['sym', 'str', 'quoted', 'lp', 'rp', 'num', 'kw', 'bin', 'hex']
+SEPS = ['', ' ', '\t', '\n', '\r\n', 'comment']
+
+
+def lexeme(kind, c):
+    """Text of one lexeme of the given kind around the symbolic character c;
+    None if c is not allowed there."""
+    special = (c == ' ' or c == '\t' or c == '\n' or c == '\r' or c == '('
+               or c == ')' or c == '"' or c == '|' or c == ';')
+    if kind == 'sym':
+        return None if special else 'a' + c + '-b'
+    if kind == 'str':
+        return '"x' + ('""' if c == '"' else c) + '"'
+    if kind == 'quoted':
+        return None if c == '|' else '|q' + c + ';"('
+    if kind == 'lp':
+        return '('
+    if kind == 'rp':
+        return ')'
+    if kind == 'num':
+        return None if not ('0' <= c <= '9') else '4' + c + '.5'
+    if kind == 'kw':
+        return None if special else ':k' + c
+    if kind == 'bin':
+        return None if not (c == '0' or c == '1') else '#b1' + c
+    if kind == 'hex':
+        return None if special else '#x' + c + 'F'
+    return None
+
+
+def separator(kind, d):
+    if kind == 'comment':
+        return None if d == '\n' else ';' + d + ')"\n'
+    return kind
+
+
+def check_lexemes(kinds, chars, seps, dchars):
+    from ddsmt import nodeio
+    pieces = []
+    for i, k in enumerate(kinds):
+        lx = lexeme(k, chars[i])
+        if lx is None:
+            return 'skip'
+        if k == 'quoted':
+            lx = lx + '|'
+        pieces.append(lx)
+        sp = separator(SEPS[seps[i]], dchars[i])
+        if sp is None:
+            return 'skip'
+        pieces.append(sp)
+    seq = R.explode(pieces)
+    ref = R.read(seq)
+    if isinstance(ref, str):
+        return 'skip'
+    got = [to_list(n) for n in nodeio.parse_smtlib(seq)]
+    if got != ref:
+        return 'parse differs'
+    return None
+
+
+def make_lex(kinds):
+    n = len(kinds)
+
+    def h(c0: str, c1: str, c2: str, c3: str, s0: int, s1: int, s2: int,
+          s3: int, d0: str, d1: str, d2: str, d3: str):
+        chars = [c0, c1, c2, c3]
+        seps = [s0, s1, s2, s3]
+        dch = [d0, d1, d2, d3]
+        for i in range(4):
+            if i < n:
+                assume(len(chars[i]) == 1)
+                assume(0 <= seps[i] < len(SEPS))
+                if kinds[i] in ('lp', 'rp'):
+                    assume(chars[i] == 'x')
+            else:
+                assume(len(chars[i]) == 0 and seps[i] == 0)
+            assume(len(dch[i]) == (1 if i < n else 0))
+        from crosshair.core import realize
+        seps = [realize(x) for x in seps]
+        for i in range(n):
+            if SEPS[seps[i]] != 'comment':
+                assume(dch[i] == 'x')
+        r = check_lexemes(kinds, chars[:n], seps[:n], dch[:n])
+        assume(r != 'skip')
+        if r is not None:
+            raise Violation(r)
+    return h
+
+
+GRID_LEX = ['a-b', 'x', '"s ""q"" ;("', '""', '|q ;"(\n|', '||', '(', ')', '42',
+            '4.5', ':kw', '#b10', '#xaF', '_', '!', ';c )"\n', '; \n']
+GRID_SEP = ['', ' ', '\t', '\n', '\r', '\r\n', ' ;c\n', '\n\n  ']
+
+
+def run_lexgrid(n):
+    """Auxiliary (concrete): every sequence of n lexemes from GRID_LEX with
+    every separator of GRID_SEP between them - multi-character lexemes and
+    all white-space kinds, which texts of <= 6 symbolic characters cannot
+    combine."""
+    import itertools
+    import time
+    from ddsmt import nodeio
+    t0 = time.time()
+    cnt = ok = 0
+    bad = None
+    for lex in itertools.product(GRID_LEX, repeat=n):
+        for seps in itertools.product(GRID_SEP, repeat=n):
+            text = ''.join(l + sp for l, sp in zip(lex, seps))
+            cnt += 1
+            ref = R.read(text)
+            if isinstance(ref, str):
+                continue
+            ok += 1
+            try:
+                got = [to_list(x) for x in nodeio.parse_smtlib(text)]
+            except Exception as e:
+                got = f'{type(e).__name__}: {e}'
+            if got != ref and bad is None:
+                bad = ({'text': text},
+                       f'parse_smtlib({text!r}) = {got!r}, reference reader: '
+                       f'{ref!r}')
+    return {'status': 'VIOLATED' if bad else 'CONFIRMED',
+            'cex': bad[0] if bad else None,
+            'exc': {'type': 'Violation', 'msg': bad[1]} if bad else None,
+            'paths': cnt, 'paths_ok': ok,
+            'samples': [{'text': 'a-b "s ""q"" ;("\t(#b10 ;c\n)'}],
+            'solver_checks': 0, 'solver_seconds': 0.0,
+            'wall_s': round(time.time() - t0, 2),
+            'note': 'concrete grid (auxiliary)'}
+
+
+def _lex_balanced_possible(kinds):
+    depth = 0
+    for k in kinds:
+        if k == 'lp':
+            depth += 1
+        elif k == 'rp':
+            depth -= 1
+            if depth < 0:
+                return False
+    return depth == 0
+
+
 def bounds(tier):
-    return {'max_len': 4 if tier == 'quick' else 6}
+    return {'max_len': 4 if tier == 'quick' else 6,
+            'lexemes': 3}
 
 
 def _setup():
@@ -130,10 +295,41 @@ def partitions(tier):
                 'per_path_timeout': 30,
                 'bounds': {'len': L, 'first_classes': list(pins)},
             })
+    parts.append({'name': 'lexgrid', 'kind': 'native',
+                  'run': (lambda: run_lexgrid(bounds(tier)['lexemes'])),
+                  'budget_s': 600,
+                  'bounds': {'lexemes': bounds(tier)['lexemes'],
+                             'note': 'concrete grid (auxiliary)'}})
     return parts
 
 
 def replay(part, cex):
+    if part == 'lexgrid':
+        try:
+            return check_and_describe(cex['text'])
+        except Exception as e:
+            return f'{type(e).__name__}: {e}'
+    if part.startswith('lex_'):
+        kinds = part[4:].split('_')
+        n = len(kinds)
+        try:
+            r = check_lexemes(kinds, [cex[f'c{i}'] for i in range(n)],
+                              [cex[f's{i}'] for i in range(n)],
+                              [cex[f'd{i}'] for i in range(n)])
+        except Exception as e:
+            return f'{type(e).__name__}: {e}'
+        if r in (None, 'skip'):
+            return None
+        from ddsmt import nodeio
+        pieces = []
+        for i, k in enumerate(kinds):
+            lx = lexeme(k, cex[f'c{i}'])
+            pieces.append(lx + ('|' if k == 'quoted' else ''))
+            pieces.append(separator(SEPS[cex[f's{i}']], cex[f'd{i}']))
+        text = ''.join(pieces)
+        got = [to_list(n) for n in nodeio.parse_smtlib(text)]
+        return (f'parse_smtlib({text!r}) = {got!r}, reference reader: '
+                f'{R.read(text)!r}')
     text = cex['text']
     try:
         r = check_text(text)
